@@ -8,7 +8,9 @@ git -C /repo worktree add -q --detach $W HEAD || exit 2
 trap 'git -C /repo worktree remove --force $W; rm -rf $W' EXIT
 B=$W/_b
 cmake -G Ninja -S $W -B $B -DBUILD_TESTING=ON >/dev/null 2>&1
-bld() { cmake --build $B -j16 >$W/build.log 2>&1; }
+# explicit targets: the default target would also compile modules that must never be built here (sys: shell access)
+TARGETS="blocc bloc bloc_file bloc_csv bloc_sqlite3 bloc_utf8 test_parse_constant test_operators_integer test_operators_numeric test_operators_type_mixing test_operators_boolean test_operators_relational test_math_constant test_tuple test_table test_math_builtin test_statement_loop perf_hash perf_prim test_exception_handling test_function test_member_expression test_clone test_c_api"
+bld() { cmake --build $B -j16 --target $TARGETS >$W/build.log 2>&1; }
 bld || { echo "HEAD build failed"; tail $W/build.log; exit 2; }
 ctest --test-dir $B -j8 2>&1 | grep -q "100% tests passed" || { echo "HEAD ctest failed"; exit 2; }
 for M in "$@"; do
